@@ -74,4 +74,157 @@ theorem cmpGreater_exact (c : DCtx) (my other : List (Nat × Nat)) :
   unfold cmpGreater
   rw [foldMyGreater, foldOtherNew]
 
+/-! ### digests of canonical subtrees determine the contents of their ranges -/
+
+/-- digests are collision free and the two kinds never collide (blake3; trusted) -/
+structure DigOk {D} (A : DigAlg D) : Prop where
+  hE_inj : Function.Injective A.hE
+  hN_inj : Function.Injective A.hN
+  sep : ∀ l l', A.hE l ≠ A.hN l'
+
+theorem elemsHash_none_iff {D} (A : DigAlg D) (els : List Elem) :
+    elemsHash A els = none ↔ els = [] := by
+  unfold elemsHash; cases els <;> simp
+
+theorem elemsHash_inj {D} (A : DigAlg D) (h : DigOk A) (l l' : List Elem)
+    (he : elemsHash A l = elemsHash A l') : pairs l = pairs l' := by
+  unfold elemsHash at he
+  cases l <;> cases l' <;> simp_all [pairs]
+  simpa using h.hE_inj he
+
+theorem elems_ne_divided {D} (A : DigAlg D) (h : DigOk A) (l : List Elem) (ts : List (Tree D)) :
+    elemsHash A l ≠ kidsHash A ts := by
+  unfold elemsHash kidsHash
+  split
+  · simp
+  · intro he; exact h.sep _ _ (Option.some.inj he)
+
+section inj
+variable {D : Type} (A : DigAlg D) (S : Splitter) (p : Params)
+
+/-- a canonical subtree with a nil digest is an empty range (there is no `stuck` under `WidthOk`) -/
+theorem hash_none_empty (sl : List Elem) (f lo hi : Nat) (hw : WidthOk S p sl f lo hi)
+    (hn : (build A S p sl f lo hi).hash = none) : slRange sl lo hi = [] := by
+  cases f with
+  | zero =>
+    simp only [WidthOk] at hw
+    rw [build_zero, if_neg (by omega)] at hn
+    exact (elemsHash_none_iff A _).mp hn
+  | succ f =>
+    rw [build_succ] at hn
+    by_cases hc : (slRange sl lo hi).length > p.thr
+    · rw [if_pos hc] at hn; simp [Tree.hash, kidsHash] at hn
+    · rw [if_neg hc] at hn; exact (elemsHash_none_iff A _).mp hn
+
+/-- the contents of a well-split range are the union of the contents of its parts -/
+theorem content_union (sl : List Elem) (lo hi : Nat) (hs : SplitOk S p.df lo hi) (x : Nat × Nat) :
+    x ∈ pairs (slRange sl lo hi) ↔
+      ∃ i, i < p.df ∧ x ∈ pairs (slRange sl (S.child lo hi p.df i).1 (S.child lo hi p.df i).2) := by
+  simp only [pairs, List.mem_map]
+  constructor
+  · rintro ⟨e, he, rfl⟩
+    have hm := mem_slRange.mp he
+    obtain ⟨i, _, hi', hin, _⟩ := hs.bucket e.hash hm.2.1 hm.2.2
+    exact ⟨i, hi', e, mem_slRange.mpr ⟨hm.1, hin.1, hin.2⟩, rfl⟩
+  · rintro ⟨i, hi', e, he, rfl⟩
+    have hm := mem_slRange.mp he
+    have hsub := hs.sub i hi'
+    exact ⟨e, mem_slRange.mpr ⟨hm.1, by omega, by omega⟩, rfl⟩
+
+theorem mem_kids_hash (sl : List Elem) (f lo hi : Nat) (d : D) :
+    d ∈ (buildKids A S p sl f lo hi).filterMap Tree.hash ↔
+      ∃ i, i < p.df ∧ (build A S p sl f (S.child lo hi p.df i).1 (S.child lo hi p.df i).2).hash = some d := by
+  unfold buildKids
+  simp only [List.mem_filterMap, List.mem_map, List.mem_range]
+  constructor
+  · rintro ⟨t, ⟨i, hi', rfl⟩, ht⟩; exact ⟨i, hi', ht⟩
+  · rintro ⟨i, hi', ht⟩; exact ⟨_, ⟨i, hi', rfl⟩, ht⟩
+
+/-- **equal digests, equal contents** — for two canonical subtrees with the same depth budget,
+over possibly different ranges and different contents. (No positional argument is needed although
+`calcDividedHash` drops nil children: a child digest determines the child's contents.) -/
+theorem build_hash_inj (hA : DigOk A) (sl sl' : List Elem) :
+    ∀ f lo hi lo' hi', WidthOk S p sl f lo hi → WidthOk S p sl' f lo' hi' →
+      (build A S p sl f lo hi).hash = (build A S p sl' f lo' hi').hash →
+      ∀ x, x ∈ pairs (slRange sl lo hi) ↔ x ∈ pairs (slRange sl' lo' hi') := by
+  intro f
+  induction f with
+  | zero =>
+    intro lo hi lo' hi' hw hw' hh x
+    simp only [WidthOk] at hw hw'
+    rw [build_zero, build_zero, if_neg (by omega), if_neg (by omega)] at hh
+    have := elemsHash_inj A hA _ _ hh
+    rw [this]
+  | succ f ih =>
+    intro lo hi lo' hi' hw hw' hh x
+    rw [build_succ, build_succ] at hh
+    by_cases hc : (slRange sl lo hi).length > p.thr
+    · by_cases hc' : (slRange sl' lo' hi').length > p.thr
+      · -- both divided
+        rw [if_pos hc, if_pos hc'] at hh
+        have hk : (buildKids A S p sl f lo hi).filterMap Tree.hash
+            = (buildKids A S p sl' f lo' hi').filterMap Tree.hash := by
+          simp only [Tree.hash, kidsHash, Option.some.injEq] at hh
+          exact hA.hN_inj hh
+        have hs : SplitOk S p.df lo hi ∧ ∀ i, i < p.df →
+            WidthOk S p sl f (S.child lo hi p.df i).1 (S.child lo hi p.df i).2 := by
+          rcases hw with h | h
+          · omega
+          · exact h
+        have hs' : SplitOk S p.df lo' hi' ∧ ∀ i, i < p.df →
+            WidthOk S p sl' f (S.child lo' hi' p.df i).1 (S.child lo' hi' p.df i).2 := by
+          rcases hw' with h | h
+          · omega
+          · exact h
+        rw [content_union S p sl lo hi hs.1, content_union S p sl' lo' hi' hs'.1]
+        constructor
+        · rintro ⟨i, hid, hx⟩
+          have hne : slRange sl (S.child lo hi p.df i).1 (S.child lo hi p.df i).2 ≠ [] := by
+            intro he; rw [he] at hx; simp [pairs] at hx
+          cases hd : (build A S p sl f (S.child lo hi p.df i).1 (S.child lo hi p.df i).2).hash with
+          | none => exact absurd (hash_none_empty A S p sl f _ _ (hs.2 i hid) hd) hne
+          | some d =>
+            have hm : d ∈ (buildKids A S p sl f lo hi).filterMap Tree.hash :=
+              (mem_kids_hash A S p sl f lo hi d).mpr ⟨i, hid, hd⟩
+            rw [hk] at hm
+            obtain ⟨j, hj, hdj⟩ := (mem_kids_hash A S p sl' f lo' hi' d).mp hm
+            exact ⟨j, hj, (ih _ _ _ _ (hs.2 i hid) (hs'.2 j hj) (by rw [hd, hdj]) x).mp hx⟩
+        · rintro ⟨j, hj, hx⟩
+          have hne : slRange sl' (S.child lo' hi' p.df j).1 (S.child lo' hi' p.df j).2 ≠ [] := by
+            intro he; rw [he] at hx; simp [pairs] at hx
+          cases hd : (build A S p sl' f (S.child lo' hi' p.df j).1 (S.child lo' hi' p.df j).2).hash with
+          | none => exact absurd (hash_none_empty A S p sl' f _ _ (hs'.2 j hj) hd) hne
+          | some d =>
+            have hm : d ∈ (buildKids A S p sl' f lo' hi').filterMap Tree.hash :=
+              (mem_kids_hash A S p sl' f lo' hi' d).mpr ⟨j, hj, hd⟩
+            rw [← hk] at hm
+            obtain ⟨i, hid, hdi⟩ := (mem_kids_hash A S p sl f lo hi d).mp hm
+            exact ⟨i, hid, (ih _ _ _ _ (hs.2 i hid) (hs'.2 j hj) (by rw [hd, hdi]) x).mpr hx⟩
+      · rw [if_pos hc, if_neg hc'] at hh
+        exact absurd hh.symm (elems_ne_divided A hA _ _)
+    · by_cases hc' : (slRange sl' lo' hi').length > p.thr
+      · rw [if_neg hc, if_pos hc'] at hh
+        exact absurd hh (elems_ne_divided A hA _ _)
+      · rw [if_neg hc, if_neg hc'] at hh
+        have := elemsHash_inj A hA _ _ hh
+        rw [this]
+
+/-- the digest of the elements of a range without a node against the digest of a canonical node -/
+theorem elems_vs_node_inj (hA : DigOk A) (sl sl' : List Elem) (f lo hi lo' hi' : Nat)
+    (hw : WidthOk S p sl' f lo' hi')
+    (hh : elemsHash A (slRange sl lo hi) = (build A S p sl' f lo' hi').hash) :
+    pairs (slRange sl lo hi) = pairs (slRange sl' lo' hi') := by
+  cases f with
+  | zero =>
+    simp only [WidthOk] at hw
+    rw [build_zero, if_neg (by omega)] at hh
+    exact elemsHash_inj A hA _ _ hh
+  | succ f =>
+    rw [build_succ] at hh
+    split at hh
+    · exact absurd hh (elems_ne_divided A hA _ _)
+    · exact elemsHash_inj A hA _ _ hh
+
+end inj
+
 end AnySync.Ldiff
